@@ -285,3 +285,22 @@ mut("c02-namedtuple-order", "C02", [(CF, 'PredictionIntervals = namedtuple("Pred
 mut("c02-boot-pred-not-divided", "C02", [(BS, "raw_margin_df[\"pred_margin\"] = np.nan_to_num(raw_margin_df.pred_margin / aggregate_z_total).reshape(-1, 1)", "raw_margin_df[\"pred_margin\"] = np.nan_to_num(raw_margin_df.pred_margin / (aggregate_z_total + 1)).reshape(-1, 1)")], "C02.R4")
 mut("c02-boot-group-key-order", "C02", [(BS, "            aggregate_temp_column_name = \"-\".join(aggregate)\n            all_units[aggregate_temp_column_name] = all_units[aggregate].agg(\"_\".join, axis=1)\n            dummies = pd.get_dummies(all_units[aggregate_temp_column_name])\n        else:\n            # since aggregate is of length zero", "            aggregate_temp_column_name = \"-\".join(aggregate)\n            all_units[aggregate_temp_column_name] = all_units[aggregate[::-1]].agg(\"_\".join, axis=1)\n            dummies = pd.get_dummies(all_units[aggregate_temp_column_name])\n        else:\n            # since aggregate is of length zero")], "C02.R3")
 ben("c02-lower-upper-assign-swapped-order", ["C02"], [(NPF, "                lower=lambda x: x[f\"pi_lower_{estimand}\"] + x[f\"results_{estimand}\"],\n                upper=lambda x: x[f\"pi_upper_{estimand}\"] + x[f\"results_{estimand}\"],", "                upper=lambda x: x[f\"results_{estimand}\"] + x[f\"pi_upper_{estimand}\"],\n                lower=lambda x: x[f\"results_{estimand}\"] + x[f\"pi_lower_{estimand}\"],")])
+
+# ------------------------------------------------------------------------------------------- C03
+mut("c03-unit-pred-no-floor", "C03", [(CF, "        preds = np.maximum(\n            preds + nonreporting_units[f\"last_election_results_{estimand}\"], nonreporting_units[f\"results_{estimand}\"]\n        )", "        preds = preds + nonreporting_units[f\"last_election_results_{estimand}\"]")], "C03.R1")
+mut("c03-unit-pred-floor-baseline", "C03", [(CF, "            preds + nonreporting_units[f\"last_election_results_{estimand}\"], nonreporting_units[f\"results_{estimand}\"]\n        )\n\n        # round since", "            preds + nonreporting_units[f\"last_election_results_{estimand}\"], nonreporting_units[f\"last_election_results_{estimand}\"]\n        )\n\n        # round since")], "C03.R1")
+mut("c03-unit-pred-not-rounded", "C03", [(CF, "        return preds.round(decimals=0), None", "        return preds, None")], "C03.R1")
+mut("c03-np-lower-no-floor", "C03", [(NPF, "        lower = np.maximum(\n            lower + nonreporting_units[f\"last_election_results_{estimand}\"], nonreporting_units[f\"results_{estimand}\"]\n        )", "        lower = lower + nonreporting_units[f\"last_election_results_{estimand}\"]")], "C03.R2")
+mut("c03-np-upper-minimum", "C03", [(NPF, "        upper = np.maximum(\n            upper + nonreporting_units[f\"last_election_results_{estimand}\"]", "        upper = np.minimum(\n            upper + nonreporting_units[f\"last_election_results_{estimand}\"]")], "C03.R2")
+mut("c03-gauss-upper-no-floor", "C03", [(GEF, "        upper = np.maximum(\n            upper + nonreporting_units[f\"last_election_results_{estimand}\"], nonreporting_units[f\"results_{estimand}\"]\n        )", "        upper = upper + nonreporting_units[f\"last_election_results_{estimand}\"]")], "C03.R2")
+mut("c03-gauss-lower-floor-reporting", "C03", [(GEF, "        lower = np.maximum(\n            lower + nonreporting_units[f\"last_election_results_{estimand}\"], nonreporting_units[f\"results_{estimand}\"]\n        )", "        lower = np.maximum(\n            lower + nonreporting_units[f\"last_election_results_{estimand}\"], 0\n        )")], "C03.R2")
+mut("c03-gauss-agg-lower-no-floor", "C03", [(GEF, "                predicted_lower=lambda x: np.maximum(\n                    x[f\"last_election_results_{estimand}\"] + x.lb, aggregate_nonreporting_votes[f\"results_{estimand}\"]\n                ),", "                predicted_lower=lambda x: x[f\"last_election_results_{estimand}\"] + x.lb,")], "C03.R3")
+mut("c03-gauss-agg-upper-floor-zero", "C03", [(GEF, "                predicted_upper=lambda x: np.maximum(\n                    x[f\"last_election_results_{estimand}\"] + x.ub, aggregate_nonreporting_votes[f\"results_{estimand}\"]\n                ),", "                predicted_upper=lambda x: np.maximum(x[f\"last_election_results_{estimand}\"] + x.ub, 0),")], "C03.R3")
+mut("c03-gauss-agg-no-counted", "C03", [(GEF, "                lower=lambda x: x.predicted_lower + x[f\"results_{estimand}\"],", "                lower=lambda x: x.predicted_lower,")], "C03.R3")
+mut("c03-gauss-agg-fill-missing", "C03", [(GEF, ".fillna({f\"results_{estimand}\": 0, \"predicted_lower\": 0, \"predicted_upper\": 0})", ".fillna({\"predicted_lower\": 0, \"predicted_upper\": 0})")], "C03.R3")
+mut("c03-gauss-early-return-wrong", "C03", [(GEF, "            return aggregate_votes[f\"results_{estimand}\"], aggregate_votes[f\"results_{estimand}\"]", "            return aggregate_votes[f\"results_{estimand}\"] * 0, aggregate_votes[f\"results_{estimand}\"]")], "C03.R3")
+mut("c03-handler-pred-unexpected-zero", "C03", [(MRF, "        self.unexpected_units[f\"pred_{estimand}\"] = self.unexpected_units[f\"results_{estimand}\"]", "        self.unexpected_units[f\"pred_{estimand}\"] = 0")], "C03.R4")
+mut("c03-handler-upper-reporting-pred", "C03", [(MRF, "            self.reporting_units[upper_string] = self.reporting_units[f\"results_{estimand}\"]", "            self.reporting_units[upper_string] = self.reporting_units[f\"pred_{estimand}\"] * 1.0")], "C03.R4")
+mut("c03-handler-first-alpha-only", "C03", [(MRF, "        for alpha in self.prediction_interval_alphas:\n            lower_string = f\"lower_{alpha}_{estimand}\"\n            upper_string = f\"upper_{alpha}_{estimand}\"\n            interval_cols", "        for alpha in self.prediction_interval_alphas[:1]:\n            lower_string = f\"lower_{alpha}_{estimand}\"\n            upper_string = f\"upper_{alpha}_{estimand}\"\n            interval_cols")], "C03.R4")
+mut("c03-handler-turnout-baseline", "C03", [(MRF, "        self.unexpected_units[\"pred_turnout\"] = self.unexpected_units[\"results_weights\"]", "        self.unexpected_units[\"pred_turnout\"] = self.unexpected_units[\"results_turnout\"]")], "C03.R4")
+ben("c03-floor-args-swapped", ["C03", "C05"], [(CF, "        preds = np.maximum(\n            preds + nonreporting_units[f\"last_election_results_{estimand}\"], nonreporting_units[f\"results_{estimand}\"]\n        )", "        preds = np.maximum(\n            nonreporting_units[f\"results_{estimand}\"], preds + nonreporting_units[f\"last_election_results_{estimand}\"]\n        )")])
